@@ -54,7 +54,8 @@ def rescaled(rng, s, d):
 
 
 def gen_curve(rng):
-    fam = rng.choice(['quad', 'cubic', 'uneven-quad', 'uneven-quad', 'int-quad', 'int-cubic', 'line', 'int-line', 'peaked-cubic', 'short-cubic'])
+    fam = rng.choice(['quad', 'cubic', 'uneven-quad', 'uneven-quad', 'int-quad', 'int-cubic', 'line', 'int-line', 'peaked-cubic', 'short-cubic', 'teardrop'])
+    if fam == 'teardrop': return fam, sl.teardrop(rng)
     if fam == 'peaked-cubic': return fam, sl.peaked_cubic(rng)
     if fam == 'short-cubic':
         # a few units long: the look-up table of regular sampling has only floor(length)+1 entries
@@ -74,8 +75,9 @@ def gen_curve(rng):
 
 
 def gen_path(rng):
-    fam = rng.choice(['shape', 'chain-open', 'chain-closed', 'staircase', 'reflatten', 'collinear-run'])
+    fam = rng.choice(['shape', 'chain-open', 'chain-closed', 'staircase', 'reflatten', 'collinear-run', 'teardrop-path'])
     if fam == 'shape': return sl.shape(rng)
+    if fam == 'teardrop-path': return fam, sl.teardrop_path(rng)
     if fam == 'collinear-run':
         # a straight stem with a redundant on-curve node: two (or three) consecutive Lines continuing in the same direction, next to a curve
         a = P(float(rng.randint(-100, 100)), float(rng.randint(-100, 100))); d = P(float(rng.randint(-5, 5)), float(rng.randint(1, 40)))
@@ -335,8 +337,8 @@ def search(ctx):
                 measured['min_' + k if k == 'edges_over_bound' else 'max_' + k] = (min if k == 'edges_over_bound' else max)(measured.get('min_' + k if k == 'edges_over_bound' else 'max_' + k, v), v)
             fails += f
         if len(samples) < 3: samples.append({'family': fam, 'segment': gen.seg_json(s), 'length': L, 'steps': ds})
-    for _ in range(ctx.n(25, 500)):
-        fam, p = gen_path(rng)
+    for k_ in range(ctx.n(25, 500)):
+        fam, p = gen_path(rng) if k_ >= 3 else ('teardrop-path', sl.teardrop_path(rng))
         for d in [8, rng.uniform(0.5, 100)]:
             if p.length / d > 1500: continue
             fails += check_path(p, d)
